@@ -251,8 +251,10 @@ namespace detail
 	{
 		GLM_STATIC_ASSERT(std::numeric_limits<genIType>::is_integer, "'bitfieldRotateRight' accepts only integer values");
 
-		int const BitSize = static_cast<genIType>(sizeof(genIType) * 8);
-		return (In << static_cast<genIType>(Shift)) | (In >> static_cast<genIType>(BitSize - Shift));
+		typedef typename detail::make_unsigned<genIType>::type genUType;
+		int const BitSize = static_cast<int>(sizeof(genIType) * 8);
+		genUType const Value = static_cast<genUType>(In);
+		return static_cast<genIType>((Value << Shift) | (Value >> (BitSize - Shift)));
 	}
 
 	template<length_t L, typename T, qualifier Q>
@@ -260,8 +262,10 @@ namespace detail
 	{
 		GLM_STATIC_ASSERT(std::numeric_limits<T>::is_integer, "'bitfieldRotateRight' accepts only integer values");
 
+		typedef typename detail::make_unsigned<T>::type U;
 		int const BitSize = static_cast<int>(sizeof(T) * 8);
-		return (In << static_cast<T>(Shift)) | (In >> static_cast<T>(BitSize - Shift));
+		vec<L, U, Q> const Value(In);
+		return vec<L, T, Q>((Value << static_cast<U>(Shift)) | (Value >> static_cast<U>(BitSize - Shift)));
 	}
 
 	template<typename genIType>
@@ -269,8 +273,10 @@ namespace detail
 	{
 		GLM_STATIC_ASSERT(std::numeric_limits<genIType>::is_integer, "'bitfieldRotateLeft' accepts only integer values");
 
-		int const BitSize = static_cast<genIType>(sizeof(genIType) * 8);
-		return (In >> static_cast<genIType>(Shift)) | (In << static_cast<genIType>(BitSize - Shift));
+		typedef typename detail::make_unsigned<genIType>::type genUType;
+		int const BitSize = static_cast<int>(sizeof(genIType) * 8);
+		genUType const Value = static_cast<genUType>(In);
+		return static_cast<genIType>((Value >> Shift) | (Value << (BitSize - Shift)));
 	}
 
 	template<length_t L, typename T, qualifier Q>
@@ -278,8 +284,10 @@ namespace detail
 	{
 		GLM_STATIC_ASSERT(std::numeric_limits<T>::is_integer, "'bitfieldRotateLeft' accepts only integer values");
 
+		typedef typename detail::make_unsigned<T>::type U;
 		int const BitSize = static_cast<int>(sizeof(T) * 8);
-		return (In >> static_cast<T>(Shift)) | (In << static_cast<T>(BitSize - Shift));
+		vec<L, U, Q> const Value(In);
+		return vec<L, T, Q>((Value >> static_cast<U>(Shift)) | (Value << static_cast<U>(BitSize - Shift)));
 	}
 
 	template<typename genIUType>
